@@ -74,7 +74,9 @@ def build(driver, flagset, extra_flags="", libs=""):
     src = os.path.join(VERIF, "drivers", driver + ".cpp")
     h = hashlib.sha256()
     h.update(include_hash().encode())
-    for p in [src] + sorted(glob.glob(os.path.join(VERIF, "drivers", "common", "*"))):
+    # a driver named <group>_<x>.cpp may share headers in drivers/<group>/: they are part of the key too
+    group = os.path.join(VERIF, "drivers", os.path.basename(src).split("_")[0])
+    for p in [src] + sorted(glob.glob(os.path.join(VERIF, "drivers", "common", "*"))) + (sorted(glob.glob(os.path.join(group, "*"))) if os.path.isdir(group) else []):
         with open(p, "rb") as fh:
             h.update(p.encode()); h.update(fh.read())
     h.update((fs["cxx"] + cxx_version(fs["cxx"]) + fs["flags"] + extra_flags + libs + GUARD).encode())
@@ -241,6 +243,16 @@ def run_worker(exe, args, flagset, seed, start, count, worker=0, nworkers=1, tim
         res.stderr_tail = err[-3000:]
         restarts += 1
         c = crash.get("case")
+        if c == -1 and cur == 0 and restarts <= max_restarts:
+            # died inside the fixed regression catalogue that precedes case 0 (harness: case -1): the violation is recorded above with the
+            # catalogue as its witness; carry on with the generated cases (the catalogue only runs when a worker starts at case 0)
+            v["sig"] = v["sig"] + "/in-regression-catalogue"
+            nxt = 1
+            if nworkers > 1:
+                while nxt < end and nxt % nworkers != worker:
+                    nxt += 1
+            cur = nxt
+            continue
         if c is None or c < 0 or restarts > max_restarts:
             if got_summary:
                 break  # e.g. leak report at exit: whole range ran
